@@ -80,38 +80,51 @@ def fxv(a):
     return [fx(x) for x in np.asarray(a, dtype=float).ravel()]
 
 
-def fxcols(m):
+def fxflat(m, cols=None):
+    """3 x N array -> flat list x1, y1, z1, x2, .. (of the given columns)"""
     m = np.asarray(m, dtype=float)
     if m.ndim != 2 or m.shape[0] != 3:
         return []
-    return [[fx(m[0, j]), fx(m[1, j]), fx(m[2, j])] for j in range(m.shape[1])]
+    if cols is not None:
+        m = m[:, cols]
+    return fxv(m.T)
 
 
 # ---------------------------------------------------------------------------------------------------
-# export of a real md-grid (see FracMesh.tla PART 2)
-def _csc_cols(m, n):
-    m = m.tocsc()
-    return [[int(i) for i in m.indices[m.indptr[j]:m.indptr[j + 1]]] for j in range(n)]
-
-
-def export_sd(sd, top):
+# export of a real md-grid (see FracMesh.tla PART 2; flat vectors, only what the clauses read)
+def export_sd(sd, top, sel):
+    """sel: the faces of sd that occur in the mortar maps of the interfaces whose primary grid sd is"""
     import scipy.sparse as sps
 
     nc, nf = int(sd.num_cells), int(sd.num_faces)
-    out = dict(dim=int(sd.dim), nc=nc, nf=nf, vol=fxv(sd.cell_volumes), cc=fxcols(sd.cell_centers))
+    out = dict(dim=int(sd.dim), nc=nc, nf=nf, vol=fxv(sd.cell_volumes), cc=fxflat(sd.cell_centers), fc=[], tfrac=[],
+               fsel=[], sfa=[], sfn=[], sncf=[], scell=[], ssign=[], sptr=[0], spts=[], cptr=[0], cpts=[])
     if sd.dim == 0 or nf == 0:
-        out.update(fa=[], fc=[], fnrm=[], cf=[], fnod=[], cnod=[[] for _ in range(nc)], nodes=[], tfrac=[])
         return out
+    out["fc"] = fxflat(sd.face_centers)
+    out["tfrac"] = [int(f) for f in np.where(np.asarray(sd.tags["fracture_faces"]))[0]]
+    sel = sorted(f for f in set(sel) if 0 <= f < nf)
     cf = sps.csr_matrix(sd.cell_faces)
     cf.sum_duplicates()
-    rows = []
-    for f in range(nf):
+    fn = sd.face_nodes.tocsc()
+    nodes = np.asarray(sd.nodes, dtype=float)
+    for f in sel:
         lo, hi = cf.indptr[f], cf.indptr[f + 1]
-        rows.append([[int(c), int(v)] for c, v in zip(cf.indices[lo:hi], cf.data[lo:hi]) if v != 0])
-    out.update(fa=fxv(sd.face_areas), fc=fxcols(sd.face_centers), fnrm=fxcols(sd.face_normals), cf=rows,
-               fnod=_csc_cols(sd.face_nodes, nf), nodes=fxcols(sd.nodes),
-               cnod=[] if sd.dim == top else _csc_cols(sd.cell_nodes(), nc),
-               tfrac=[int(f) for f in np.where(np.asarray(sd.tags["fracture_faces"]))[0]])
+        ent = [(int(c), int(v)) for c, v in zip(cf.indices[lo:hi], cf.data[lo:hi]) if v != 0]
+        out["fsel"].append(int(f))
+        out["sfa"].append(fx(sd.face_areas[f]))
+        out["sfn"] += fxv(sd.face_normals[:, f])
+        out["sncf"].append(len(ent))
+        out["scell"].append(ent[0][0] if ent else -1)
+        out["ssign"].append(ent[0][1] if ent else 0)
+        nd = fn.indices[fn.indptr[f]:fn.indptr[f + 1]]
+        out["spts"] += fxflat(nodes, nd)
+        out["sptr"].append(len(out["spts"]) // 3)
+    if sd.dim < top:
+        cn = sd.cell_nodes().tocsc()
+        for c in range(nc):
+            out["cpts"] += fxflat(nodes, cn.indices[cn.indptr[c]:cn.indptr[c + 1]])
+            out["cptr"].append(len(out["cpts"]) // 3)
     return out
 
 
@@ -122,13 +135,13 @@ def _entries(m):
     m.sum_duplicates()
     m = m.tocoo()
     e = sorted((int(r), int(c), fx(v)) for r, c, v in zip(m.row, m.col, m.data) if v != 0)
-    return [list(t) for t in e]
+    return [t[0] for t in e], [t[1] for t in e], [t[2] for t in e]
 
 
 def export_mdg(mdg, top):
     sds = list(mdg.subdomains())
     idx = {id(sd): i for i, sd in enumerate(sds)}
-    out = dict(err="", sds=[export_sd(sd, top) for sd in sds], intfs=[])
+    intfs, sel = [], {i: [] for i in range(len(sds))}
     for intf in mdg.interfaces():
         pri, sec = mdg.interface_to_subdomain_pair(intf)
         nm = int(intf.num_cells)
@@ -136,10 +149,12 @@ def export_mdg(mdg, top):
         for k, (proj, _) in enumerate(intf.project_to_side_grids()):
             for m in proj.tocoo().col:
                 side[int(m)] = k + 1
-        out["intfs"].append(dict(pri=idx[id(pri)], sec=idx[id(sec)], nsides=int(intf.num_sides()), nm=nm,
-                                 pm=_entries(intf.primary_to_mortar_int()), sm=_entries(intf.secondary_to_mortar_int()),
-                                 mside=side, mvol=fxv(intf.cell_volumes)))
-    return out
+        pmr, pmf, pmw = _entries(intf.primary_to_mortar_int())
+        smr, smc, smw = _entries(intf.secondary_to_mortar_int())
+        sel[idx[id(pri)]] += pmf
+        intfs.append(dict(pri=idx[id(pri)], sec=idx[id(sec)], nsides=int(intf.num_sides()), nm=nm, pmr=pmr, pmf=pmf,
+                          pmw=pmw, smr=smr, smc=smc, smw=smw, mside=side, mvol=fxv(intf.cell_volumes)))
+    return dict(err="", sds=[export_sd(sd, top, sel[i]) for i, sd in enumerate(sds)], intfs=intfs)
 
 
 # ---------------------------------------------------------------------------------------------------
